@@ -15,21 +15,31 @@ var warnAnyRe = regexp.MustCompile(`(?im)^.*(warning|conflic).*$`)
 // the numbers and the two action kinds are what the check reads; spelling and spacing of the words around them may vary
 var warnRe = regexp.MustCompile(`(?i)warning:?\s+has\s+the\s+conflict?\s+(\d+),\s*sym\s+(\d+),\s*conflict\s+Type\s+(\w+),\s*(\w+)`)
 
+var refuseRe = map[string]*regexp.Regexp{
+	"precsym":      regexp.MustCompile(`(?i)^prec\w*\s+symbol`),
+	"undefined":    regexp.MustCompile(`(?i)(not\s+defined?\s+symbol|undefined\s+symbol|symbol\s+.*\s+is\s+not\s+defined)`),
+	"norule":       regexp.MustCompile(`(?i)check\s+the\s+non-?terminal`),
+	"unproductive": regexp.MustCompile(`(?i)infinite\s+loop`),
+	"toomany":      regexp.MustCompile(`(?i)too\s+ma\w+\s+states`),
+}
+
 func classify(err error, pv interface{}) (string, string) {
 	if err != nil {
 		return "syntax", err.Error()
 	}
 	msg := fmt.Sprint(pv)
+	// the reason class is read from the message; spelling and wording may vary a little (a class this check cannot read
+	// is `panic`: the verdict refused/processed is what the properties are about, the class is only a tie)
 	switch {
-	case strings.HasPrefix(msg, "prec symbol "):
+	case refuseRe["precsym"].MatchString(msg):
 		return "precsym", msg
-	case strings.HasPrefix(msg, "It's not define symbol"):
+	case refuseRe["undefined"].MatchString(msg):
 		return "undefined", msg
-	case strings.HasPrefix(msg, "Check the nonterminal "):
+	case refuseRe["norule"].MatchString(msg):
 		return "norule", msg
-	case strings.HasPrefix(msg, "Dected infinite loop"):
+	case refuseRe["unproductive"].MatchString(msg):
 		return "unproductive", msg
-	case strings.HasPrefix(msg, "too manay states"):
+	case refuseRe["toomany"].MatchString(msg):
 		return "toomany", msg
 	}
 	return "panic", msg
